@@ -1,4 +1,7 @@
 mod cu;
+mod e3;
+mod faults;
+mod seeds;
 mod menu;
 mod props;
 mod refs;
